@@ -491,6 +491,10 @@ impl<L: Localize> Iterator for TimeDomainIterator<L> {
 
             if let Some(max_interval_size) = self.opening_hours.ctx.approx_bound_interval_size {
                 if end - start > max_interval_size {
+                    // The interval is considered infinite: nothing comes after it
+                    (&mut self.curr_schedule).for_each(|_| {});
+                    self.curr_date = DATE_END.date();
+
                     return Some(DateTimeRange::new_with_sorted_comments(
                         start..DATE_END,
                         curr_tr.kind,
